@@ -31,6 +31,11 @@ DECKS = [
     # 4 lattice with --lattice
     ('lattice', 'lattice deck\n1 0 -1 fill=1 imp:n=1\n2 0 1 imp:n=0\n10 0 -11 12 -13 14 lat=1 u=1 fill=7 imp:n=1\n21 1 -2.7 -21 u=7 imp:n=1\n'
                 '22 0 21 u=7 imp:n=1\n\n1 so 5\n11 px 1\n12 px -1\n13 py 1\n14 py -1\n21 so 0.5\n\nm1 13027 1\n', ['--lattice', '10,-1:1,-1:0']),
+    # the --lattice option given several times for one cell (the last one counts)
+    ('latticerepeat', 'lattice deck\n1 0 -1 fill=1 imp:n=1\n2 0 1 imp:n=0\n10 0 -11 12 -13 14 lat=1 u=1 fill=7 imp:n=1\n21 1 -2.7 -21 u=7 imp:n=1\n'
+                      '22 0 21 u=7 imp:n=1\n\n1 so 5\n11 px 1\n12 px -1\n13 py 1\n14 py -1\n21 so 0.5\n\nm1 13027 1\n',
+     ['--lattice', '10,-1:1,-1:1', '--lattice', '10,0:0,0:0', '--lattice', '10,-1:0,0:0', '--lattice', '10,0:1,-1:0',
+      '--lattice', '10,-1:1,0:0', '--lattice', '10,-1:1,-1:0']),
     # 5 LIKE n BUT with TRCL
     ('like', 'like deck\n1 1 -2.7 1 -2 imp:n=1\n2 like 1 but trcl=(2 0 0) mat=2 rho=-1.0\n3 0 -1 imp:n=1\n4 0 3 imp:n=0\n5 0 2 -3 #2 imp:n=1\n\n'
              '1 px -1\n2 px 1\n3 px 5\n\nm1 13027 1\nm2 8016 1\n', []),
